@@ -100,6 +100,11 @@ package car
 //@   ensures integrity [C02]: err == nil && !br.opts.TrustedCAR ==> hashok(blockcid(result0), blockdata(result0))
 //@   ensures same_values [C02]: err == nil ==> blockcid(result0) == ref(c) && blockdata(result0) == ref(data)
 //@   ensures eof_clean [C02]: err == io.EOF ==> pos(br.r) == old(pos(br.r)) || (br.opts.ZeroLengthSectionAsEOF && pos(br.r) == old(pos(br.r)) + 1)
+//@   let hashed, serr := call[Prefix.Sum#0]
+//@   let blk, berr := call[blocks.NewBlockWithCid#0]
+//@   ensures valid_section_is_returned [C01]: rerr == nil && !br.opts.TrustedCAR && serr == nil && hashok(c, ref(data)) && berr == nil ==> err == nil
+//@   ensures trusted_section_is_returned [C01]: rerr == nil && br.opts.TrustedCAR && berr == nil ==> err == nil
+//@   call[Prefix.Sum#0] assert hashes_with_the_cids_own_prefix [C01,C02]: arg0.Version == pversion(c) && arg0.Codec == pcodec(c) && arg0.MhType == mhtype(c) && arg0.MhLength == mhlen(c) && ref(arg1) == ref(data)
 
 //@ func (*BlockReader).SkipNext
 //@   call[util.LdReadSize#0] assert configured_section_limit [C09]: arg1 == br.opts.ZeroLengthSectionAsEOF && arg2 == br.opts.MaxAllowedSectionSize
@@ -344,7 +349,7 @@ package car
 //@ func NewReader
 //@   let ver, verr := call[ReadVersion#0]
 //@   let rverr := call[Reader.readV2Header#0]
-//@   call[ReadVersion#0] assert from_the_start_of_the_input [C07,C13]: pos(arg0) == sbase(arg0) && arg1 == opts
+//@   call[ReadVersion#0] assert from_the_start_of_the_input [C07,C09,C13]: pos(arg0) == sbase(arg0) && arg1 == opts
 //@   call[io.NewOffsetReadSeeker#0] assert whole_input [C07,C13]: ref(arg0) == ref(r) && arg1 == 0
 //@   ensures only_v1_or_v2 [C07,C09,C13]: err == nil ==> result0.Version == ver && (ver == 1 || ver == 2)
 //@   ensures v2_header_is_read [C05,C07,C13]: err == nil && ver == 2 ==> rverr == nil
